@@ -798,3 +798,22 @@ func (n *Net) ResetStreamsOf(nd *Node) int {
 	}
 	return len(ps)
 }
+// ---- BEGIN addition by w-hive (C34): raw stream pair ----
+
+// RawStream creates a stream between two nodes that need not be linked and
+// starts NO handler: the caller drives both ends (opener = a, handler side = b).
+// It models the connection-level handshake stream, which exists before the two
+// peers know each other's overlay. Frames pass through Mutate / Tap like any
+// other stream (Protocol / Stream as given).
+func (n *Net) RawStream(a, b *Node, protocol, stream string) (opener, handler p2p.Stream, err error) {
+	if n.IsCut(a.Addr, b.Addr) {
+		return nil, nil, ErrPartitioned
+	}
+	if !a.isUp() || !b.isUp() {
+		return nil, nil, ErrNodeDown
+	}
+	l, r := n.newPipe(a, b, protocol, stream, nil)
+	return l, r, nil
+}
+
+// ---- END addition by w-hive ----
